@@ -191,6 +191,8 @@ class Intervals:
     def _node(self, n):
         m = self.memo
         op = n.op
+        h = ir.range_hint(n)
+        if h is not None: return h
         A = [m.get(a.id) for a in n.args]
         if op == 'const': return (n.val, n.val)
         if op == 'var':
@@ -285,6 +287,9 @@ class BVEnc:
         self.IW = None
         self.EW = {}
         self.ufdecl = {}
+        self.opaque_mul = False
+        self.mulw = None
+        self.mul_hyps = []
 
     def width(self, t):
         lo, hi = self.iv.rng(t)
@@ -308,6 +313,15 @@ class BVEnc:
                     ln = _arr_info.get(n.val, (None,))[0]
                     if ln: iw = max(iw, _bits_signed(0, ln))
         self.IW = iw
+        if self.opaque_mul:
+            mw = 2
+            seen = set()
+            for t in terms:
+                for n in ir.walk(t, seen):
+                    if n.op == 'mul' and n.args[0].op != 'const' and n.args[1].op != 'const':
+                        mw = max(mw, self.width(n.args[0]), self.width(n.args[1]))
+            self.mulw = mw
+            self.mulf = z3.Function('opaque_mul', z3.BitVecSort(mw), z3.BitVecSort(mw), z3.BitVecSort(2 * mw))
 
     def z(self, t):
         m = self.memo
@@ -362,6 +376,12 @@ class BVEnc:
             return z3.BitVec(n.val, w)
         if op == 'sel':
             return self._ext(z3.Select(a[0], self._ext(a[1], self.IW)), w)
+        if op == 'mul' and self.opaque_mul and n.args[0].op != 'const' and n.args[1].op != 'const':
+            # multiplier kept opaque (uninterpreted, congruent): only its interval is known
+            r = self.mulf(self._ext(a[0], self.mulw), self._ext(a[1], self.mulw))
+            lo, hi = self.iv.rng(n)
+            self.mul_hyps.append(z3.And(r >= z3.BitVecVal(lo, 2 * self.mulw), r <= z3.BitVecVal(hi, 2 * self.mulw)))
+            return self._ext(r, w)
         if op in ('add', 'sub', 'mul'):
             W = max(w, a[0].size(), a[1].size())
             x = self._ext(a[0], W); y = self._ext(a[1], W)
@@ -437,7 +457,7 @@ class BVEnc:
                         hy.append(z3.UGE(v, z3.BitVecVal(lo, W)))
                 else:
                     hy.append(v >= z3.BitVecVal(lo, W)); hy.append(v <= z3.BitVecVal(hi, W))
-        return hy
+        return hy + self.mul_hyps
 
 
 # ----------------------------------------------------------------------------- driver
@@ -496,7 +516,7 @@ def _cvc5_check(solver, timeout_s):
         except OSError: pass
 
 
-def prove(hyps, goal, mode='int', timeout_s=10, want_model=True, use_cvc5=True, extra_axioms=None):
+def prove(hyps, goal, mode='int', timeout_s=10, want_model=True, use_cvc5=True, extra_axioms=None, opaque_mul=False):
     """decide hyps |= goal.  mode 'int' (parametric) or 'bv' (all variable ranges declared)."""
     t0 = time.time()
     hyps = [ir.truth(h) for h in hyps]
@@ -505,7 +525,7 @@ def prove(hyps, goal, mode='int', timeout_s=10, want_model=True, use_cvc5=True, 
         return Verdict('proved', 'fold', 0.0, mode=mode)
     try:
         if mode == 'bv':
-            enc = BVEnc(); enc.prepare(hyps + [goal])
+            enc = BVEnc(); enc.opaque_mul = opaque_mul; enc.prepare(hyps + [goal])
         else:
             enc = IntEnc()
         zh = [enc.z(h) for h in hyps]
